@@ -7,7 +7,7 @@
 use riscv_analysis::analysis::{AvailableValue, MemoryLocation};
 use riscv_analysis::cfg::AvailableValueMap;
 use riscv_analysis::parser::{HasIdentity, InstructionProperties, ParserNode, RVStringParser, Register};
-use riscv_analysis::passes::Manager;
+use riscv_analysis::passes::{DiagnosticManager, Manager};
 use rva_verif::ob_text::{node_label, node_meaning};
 use rva_verif::rvref::RInst;
 
@@ -108,7 +108,10 @@ fn main() {
                     mem_json(&n.memory_values_out())
                 ));
             }
-            format!("{{\"nodes\":[{}]}}", out.join(","))
+            // the eleven lint passes must also get through the program without panicking (C06)
+            let mut diags = DiagnosticManager::new();
+            Manager::run_diagnostics(&cfg, &mut diags);
+            format!("{{\"nodes\":[{}],\"diagnostics\":{}}}", out.join(","), diags.iter().count())
         });
         match result {
             Ok(s) => println!("{s}"),
